@@ -257,6 +257,10 @@ func termInstallFlags(id int, f slog.Flags) {
 	}
 }
 
+type termCtxKey int
+
+func (k termCtxKey) String() string { return "ck" + strconv.Itoa(int(k)) }
+
 // termPrepare configures the process and a fresh logger as the cell says and returns the call.
 func termPrepare(lg *termLog, c termCell, msg string) (call func(), err error) {
 	f := termBaseFlags(c.Base)
@@ -290,6 +294,9 @@ func termPrepare(lg *termLog, c termCell, msg string) (call func(), err error) {
 			e.SetColorMode(false)
 		}
 		e.SetLevel(slog.Level(c.L))
+		if c.Inp == "nilctx" { // context keys registered, and the caller hands in a nil context
+			e.SetContextKeys("ck1", termCtxKey(2))
+		}
 	}
 
 	root := slog.New(fmt.Sprintf("c12-%d", c.ID)) // what a user holds: the Logger returned by New
@@ -315,6 +322,9 @@ func termPrepare(lg *termLog, c termCell, msg string) (call func(), err error) {
 	is.SetTraceMode(false)
 
 	ctx := context.Background()
+	if c.Inp == "nilctx" {
+		ctx = nil
+	}
 	args := termArgs(c)
 	pkg := c.Recv == "pkgimp" || c.Recv == "pkgentry"
 	switch {
@@ -460,7 +470,7 @@ func termDecode(c termCell, msg string, p []byte) string {
 	if len(p) == 0 || p[len(p)-1] != '\n' {
 		return "incomplete:no final newline"
 	}
-	wantAttrs := c.Inp != "plain" && c.Base != "empty" // Lattrs is off in the empty flag set
+	wantAttrs := c.Inp != "plain" && c.Inp != "nilctx" && c.Base != "empty" // Lattrs is off in the empty flag set
 	id := strconv.Itoa(c.ID)
 	body := string(p[:len(p)-1])
 	switch c.Fmt {
